@@ -267,6 +267,10 @@ type Case struct {
 	Cfg  Config
 	reg  map[reflect.Type]*regEntry
 	seq  int
+	// top-level object of NewCaseWithTop (see top.go)
+	Top     *Node
+	TopCall *serix.TypeSettings
+	TopKind string
 }
 
 type regEntry struct {
